@@ -166,6 +166,16 @@ def check(case, mon):
     bc = pp.BoundaryConditionVectorial(g, bf, ["dir"] * bf.size)
     mode = case["bc_mode"]
     bfset = set(bf.tolist())
+    C = pp.FourthOrderTensor(mu * np.ones(nc), lam * np.ones(nc))
+    data = {pp.PARAMETERS: {KW: {"fourth_order_tensor": C, "bc": bc}},
+            pp.DISCRETIZATION_MATRICES: {KW: {}}}
+    discr = pp.Tpsa(KW)
+    if (case.get("neu_faces") or case.get("neu_comp")) and (nc + nf) % 2 == 0:
+        # the same Tpsa object and data dictionary are first used with the all-Dirichlet
+        # state of this boundary-condition OBJECT, whose types are then changed in place:
+        # the second discretization must follow the new types everywhere
+        discr.discretize(g, data)
+        mon.count("rediscretized_after_bc_changed_in_place")
     for f in case.get("neu_faces", []):
         if f not in bfset:
             mon.excluded("Neumann face index is not a boundary face")
@@ -183,10 +193,6 @@ def check(case, mon):
         return
     n_neu_rows = int(bc.is_neu[:, bf].sum())
 
-    C = pp.FourthOrderTensor(mu * np.ones(nc), lam * np.ones(nc))
-    data = {pp.PARAMETERS: {KW: {"fourth_order_tensor": C, "bc": bc}},
-            pp.DISCRETIZATION_MATRICES: {KW: {}}}
-    discr = pp.Tpsa(KW)
     discr.discretize(g, data)
     M = data[pp.DISCRETIZATION_MATRICES][KW]
 
